@@ -35,6 +35,9 @@ def build_world(shape):
     W['A'] = p.parse(SHAPES[shape])
     W['B'] = p.parse('EK[Oxidation]')
     W['B2'] = p.parse('PE')
+    # the same peptide written with the modifications of each site in two different orders
+    W['C'] = p.parse('[Formyl][Acetyl]-P[Phospho][1]EK[Oxidation]')
+    W['C2'] = p.parse('[Acetyl][Formyl]-P[1][Phospho]EK[Oxidation]')
     W['rules'] = {'K': ['Methyl'], 'T': [p.Mod('Phospho', 1)]}
     W['nrule'] = ['Formyl']
     W['vrules'] = {'K': [['Methyl'], ['Dimethyl']], 'P': 'Oxidation'}
@@ -223,6 +226,19 @@ def L(p):
     t['A.combinations'] = lambda W: W[A].combinations(2)
     t['A.combinations_with_replacement'] = lambda W: W[A].combinations_with_replacement(2)
     t['A.__eq__'] = lambda W: (W[A] == W[B], W[A] == W[A].copy())
+    t['C.__eq__'] = lambda W: (W['C'] == W['C2'], W['C2'] != W['C'])
+    t['find_subsequence_indices-C'] = lambda W: p.find_subsequence_indices(W['C'], W['C2'])
+    t['is_subsequence-C'] = lambda W: (p.is_subsequence(W['C2'], W['C']), p.is_subsequence(W['C2'], W['C'], order=False))
+    t['coverage-C'] = lambda W: p.coverage(W['C'], [W['C2']])
+    t['serialize-C'] = lambda W: (W['C'].serialize(), W['C2'].serialize(), [x.serialize() for x in W['C'].split()])
+    # ---- the same quantities asked for with a rounding precision first (a later unrounded call must not see it)
+    t['mod_mass-precision'] = lambda W: (p.mod_mass('Phospho', True, 1), p.mod_mass('Oxidation', False, 0),
+                                         p.mod_mass(W['modlist'], precision=1), p.mod_mass('Acetyl', precision=2))
+    t['mass-precision'] = lambda W: (p.mass(W[A], precision=1), p.mz(W[A], precision=0))
+    t['comp_mass-precision'] = lambda W: p.comp_mass(W[A], precision=1)
+    t['glycan_mass-precision'] = lambda W: (p.glycan_mass(W['gly'], precision=1), p.glycan_mass('Hex', False, 0))
+    t['fragment-precision'] = lambda W: p.fragment(W[A], ['b', 'y'], [1], precision=1, return_type='mz')
+    t['condense_to_mass_mods-precision'] = lambda W: p.condense_to_mass_mods(W[A], precision=1)
     t['A.predicates'] = lambda W: (W[A].has_mods(), W[A].contains_sequence_ambiguity(), W[A].count_internal_mods(),
                                    W[A].count_modified_residues(), len(W[A]))
     return t
@@ -238,7 +254,7 @@ def labels():
 
 
 # labels known (by reading) to touch caller-owned objects or global state: first/second element of thorough triples
-TOUCHY = ['shared-Fragmenter-ml2', 'fragment-avg', 'apply_isotope_mods_to_composition-str', 'mod_comp-str', 'split', 'A.split', 'permutations', 'A.permutations', 'product', 'combinations', 'combinations_with_replacement',
+TOUCHY = ['mod_mass-precision', 'C.__eq__', 'shared-Fragmenter-ml2', 'fragment-avg', 'apply_isotope_mods_to_composition-str', 'mod_comp-str', 'split', 'A.split', 'permutations', 'A.permutations', 'product', 'combinations', 'combinations_with_replacement',
           'fragment', 'fragment-losses', 'Fragmenter', 'condense_to_mass_mods', 'isotopic_distribution', 'isotopic_distribution-zeros',
           'get_fragment_matches', 'shuffle-seed', 'A.shuffle-seed', 'fix_list_of_mods', 'create_annotation',
           'create_annotation-raw', 'comp_mass', 'count_residues', 'apply_static_mods', 'apply_variable_mods',
